@@ -214,9 +214,11 @@ func (n *rigNode) shutdown() {
 	if err := ircStore.Close(); err != nil {
 		log.Printf("rig: ircStore close: %v", err)
 	}
-	if err := outputStream.Close(); err != nil {
-		log.Printf("rig: outputStream close: %v", err)
-	}
+	// The output stream is deliberately NOT closed (main() never closes it
+	// either; the next start deletes old databases): server-side getMessages
+	// goroutines of cancelled long polls may still be inside GetNext, which
+	// panics (log.Panicf) on a closed database.
+	outputStream.InterruptGetNext()
 	glog.Flush()
 }
 
